@@ -718,6 +718,10 @@ def extract_take(repo, arg, cfg, world, log):
     item = apply_rewrites(item, c, log)
     if opts.get("pubfields"):
         item = pub_fields(item, log)
+    if opts.get("ghostfield"):
+        item = ghost_field(item, log)
+    if opts.get("ghostlit"):
+        item = ghost_lit(item, log, set(str(opts["ghostlit"]).split(",")))
     if opts.get("as_inherent"):
         # R8/R9: `impl Index<..> for T { type Output = ..; fn index(..) }` -> `impl T { fn index(..) }`
         item = as_inherent(item, log)
@@ -728,6 +732,15 @@ def pub_fields(toks, log):
     struct with private fields as opaque in the contracts of pub fns)"""
     toks = list(toks)
     i = next(k for k, u in enumerate(toks) if u.kind == "id" and u.text == "struct")
+    # `pub(crate) struct` / private struct -> `pub struct`
+    if i >= 1 and P(toks[i - 1], ")"):
+        o = match_open(toks, i - 1)
+        log.append(("R22", toks[i].line, "pub(crate) struct made pub"))
+        toks[o:i] = []
+        i = o
+    elif i == 0 or not (toks[i - 1].kind == "id" and toks[i - 1].text == "pub"):
+        toks[i:i] = [T("id", "pub", toks[i].line)]; i += 1
+        log.append(("R22", toks[i].line, "private struct made pub"))
     bo, bc = body_range(toks, i, len(toks))
     j = bo + 1
     first = True
@@ -751,6 +764,44 @@ def pub_fields(toks, log):
             if ang == 0: first = True
         j += 1
     return out + toks[bc:]
+
+def ghost_field(toks, log):
+    """R19: a struct none of whose fields carries a Verus type invariant gets `pub ty_: Ghost<usize>`
+    (Verus quirk: an f64 read out of such a struct lacks its typing fact; the ghost field is erased)"""
+    toks = list(toks)
+    i = next(k for k, u in enumerate(toks) if u.kind == "id" and u.text == "struct")
+    bo, bc = body_range(toks, i, len(toks))
+    ln = toks[bc].line
+    ins = []
+    if not P(toks[bc - 1], ","): ins.append(T("punct", ",", ln))
+    ins += toks_of("pub ty_: Ghost<usize>,", ln)
+    toks[bc:bc] = ins
+    log.append(("R19", ln, "ghost field ty_ added to struct " + toks[i + 1].text))
+    return toks
+
+def ghost_lit(toks, log, names):
+    """R19: struct literals `Name { .. }` (Name in names; `Self` included when listed) get `ty_: Ghost(0)`"""
+    toks = list(toks)
+    i = 0
+    while i < len(toks):
+        t = toks[i]
+        if t.kind == "id" and t.text in names and i + 1 < len(toks) and P(toks[i + 1], "{") and \
+                not (i > 0 and toks[i - 1].kind == "id" and toks[i - 1].text in ("struct", "impl", "for", "enum", "trait")) and \
+                not (i > 0 and P(toks[i - 1], ">")):
+            c = match_close(toks, i + 1)
+            # a literal has `ident :` or `ident ,` or `ident }` right after the brace; an impl body does not start so
+            nxt = toks[i + 2]
+            if nxt.kind == "id" and (P(toks[i + 3], ":") or P(toks[i + 3], ",") or P(toks[i + 3], "}")):
+                ln = toks[c].line
+                ins = []
+                if not P(toks[c - 1], ","): ins.append(T("punct", ",", ln))
+                ins += toks_of("ty_: Ghost(0),", ln)
+                toks[c:c] = ins
+                log.append(("R19", ln, "ty_: Ghost(0) added to a %s literal" % t.text))
+                i = c + len(ins)
+                continue
+        i += 1
+    return toks
 
 def as_inherent(toks, log):
     # impl <Trait> for <Type> { ... }  ->  impl <Type> { ... } and drop `type X = ..;` members
